@@ -364,6 +364,15 @@ pub fn run(prop: &str, tier: &str, replay: Option<&str>) -> i32 {
                     acc.extend_from_slice(to_params(&cst)?.serialize_request(&w.key_a).map_err(|e| format!("{:?}", e))?.der());
                     acc.extend_from_slice(to_crl_params(&CrlState::default())?.signed_by(&ca, &w.key_b).map_err(|e| format!("{:?}", e))?.der());
                     acc.extend_from_slice(to_params(&st_leaf())?.signed_by(&w.leaf_key, &ca, &w.key_b).map_err(|e| format!("{:?}", e))?.der());
+                    // the same name as the subject of certificates whose serial number is chosen by rcgen, for every
+                    // relation between subject key and issuer key: self-signed, under another key, and under a CA
+                    // that holds the SAME key under another name (self-issued)
+                    let mut auto = st.clone();
+                    auto.serial = None;
+                    auto.nc = None;
+                    acc.extend_from_slice(to_params(&auto)?.self_signed(&w.key_b).map_err(|e| format!("{:?}", e))?.der());
+                    acc.extend_from_slice(to_params(&auto)?.signed_by(&w.key_a, &ca, &w.key_b).map_err(|e| format!("{:?}", e))?.der());
+                    acc.extend_from_slice(to_params(&auto)?.signed_by(&w.key_b, &w.ca_b, &w.key_b).map_err(|e| format!("{:?}", e))?.der());
                     Ok(acc)
                 });
                 rcgen::verif_hooks::set_seed(0);
